@@ -149,6 +149,8 @@ pub struct Ref {
     bad_streak: u32,
     /// the last stop was a runtime error: a following CONT is a grey zone
     cont_after_error: bool,
+    /// the last END was followed only by lines without code: whether CONT can go on is not settled
+    cont_end_grey: bool,
     /// the DATA position after an edit is not settled by the manual
     data_unknown: bool,
 }
@@ -263,6 +265,7 @@ impl Ref {
             used_replies: vec![],
             bad_streak: 0,
             cont_after_error: false,
+            cont_end_grey: false,
             data_unknown: false,
         };
         r.set_program(prog);
@@ -287,6 +290,7 @@ impl Ref {
         }
         self.cont = None;
         self.cont_after_error = false;
+        self.cont_end_grey = false;
     }
 
     /// An edit typed at the prompt: new program text, pending execution state discarded,
@@ -1032,6 +1036,7 @@ impl Ref {
         self.data_unknown = false;
         self.cont = None;
         self.cont_after_error = false;
+        self.cont_end_grey = false;
     }
 
     fn while_match(&mut self, pos: Pos, forward: bool) -> Option<Pos> {
@@ -1459,6 +1464,12 @@ impl Ref {
                     } else {
                         // END as the last thing in the program: nothing left to continue
                         self.cont = None;
+                        if let Place::Prog(i) = pos.place {
+                            if i + 1 < self.flat.len() {
+                                // ... except lines without code (REM, DATA): not settled
+                                self.cont_end_grey = true;
+                            }
+                        }
                     }
                 }
                 self.ready();
@@ -1724,6 +1735,10 @@ impl Ref {
                 }
                 if self.cont_after_error {
                     self.grey("CONT after a runtime error");
+                    return Ok(Flow::Next);
+                }
+                if self.cont_end_grey && self.cont.is_none() {
+                    self.grey("CONT after an END that only lines without code follow");
                     return Ok(Flow::Next);
                 }
                 match self.cont.take() {
